@@ -128,9 +128,12 @@ in 25 s incl. minimisation; `loop.last` off by one; `0.0` truthy; `Set` writing
 into the outer scope; counting `\\r` as a line end; an unsynchronised package
 variable written by `EvaluateString`): all detected by the quick tier.
 
-Every check was also run on the unchanged tree at `VERIF_SEED` 1-6 (quick) and 1-2
-(thorough), partly while the machine was busy with sub-agents and other runs:
-no alarm. `tools/recheck_seeded.sh` re-runs every kept change against the
+Every check was also run on the unchanged tree at `VERIF_SEED` 1-6 (quick, after
+every round of changes to the checks) and 1-10 (thorough, one seed per stage of
+the checks), mostly while the machine was busy with sub-agents and other runs
+(load averages of 30 to 70 on 16 cores). The quick tier never alarmed; the
+thorough tier alarmed four times, each time because of a mistake in a check added
+the same day (section 5) - none was a timing artefact. `tools/recheck_seeded.sh` re-runs every kept change against the
 current checks (after a fix in `/repo` two patches had to be re-based).
 
 """ + sweep_section()
